@@ -28,9 +28,18 @@ class BaseModel:
             raise AnalysisBroken('cannot identify the convergence-flag / status fields of %s' % comp.record)
         self.flag = flags[0]
         self.info = infos[0]
-        self.methods = {f.name: f for f in F.methods(comp.record)}
+        self.all_methods = sorted(F.methods(comp.record), key=lambda f: (f.name, f.line))
+        # name -> the overload with the largest body (init(ptr) rather than init(), eigenvectors(nvec) rather than eigenvectors())
+        self.methods = {}
+        for f in self.all_methods:
+            if f.name not in self.methods or len(f.nodes) > len(self.methods[f.name].nodes):
+                self.methods[f.name] = f
         self.F = F
         self.E = ctx.E
+
+    def named(self):
+        """(name, function) for every analysed member function of the record, all overloads."""
+        return [(f.name, f) for f in self.all_methods]
 
     def whole_flag_assign(self, fn):
         """Nodes in fn that overwrite the whole flag array by assignment (`flags = <expr>`)."""
@@ -45,7 +54,7 @@ class BaseModel:
     def refreshers(self):
         """Methods that, on every normal path, assign the whole flag array from a comparison."""
         out = {}
-        for name, fn in self.methods.items():
+        for name, fn in self.named():
             if fn.d.get('ctor') or fn.d.get('dtor'):
                 continue
             for w in self.whole_flag_assign(fn):
@@ -127,7 +136,7 @@ def flag_freshness(ctx, base_tq, rule='flags-fresh-at-use'):
             raise AnalysisBroken('%s: compute() has %d writer / %d consumer / %d refresh events' %
                                  (comp.record, len(starts), len(consumers), len(refreshes)))
         hit = paths.search(comp, starts, stop=lambda n: klass(n) == 'refresh',
-                           target=lambda n: klass(n) == 'consumer', include_entry=True)
+                           target=lambda n: klass(n) == 'consumer', include_entry=True, feas=True)
         inst = short(base_tq) + '::compute'
         ctx.check(hit is None, rule, inst, comp.qname,
                   'convergence flags are re-evaluated after the last change of the Ritz data on every path to a consumer '
@@ -185,7 +194,7 @@ def count_source(ctx, m, comp, refs, klass, base_tq, rule='count-is-fresh-flag-c
                     starts.append((b, i))
                 elif is_def(n) and not fresh(n):
                     starts.append((b, i))
-        hit = paths.search(comp, starts, stop=is_def, target=lambda n: n['id'] in use_ids)
+        hit = paths.search(comp, starts, stop=is_def, target=lambda n: n['id'] in use_ids, feas=True)
         ctx.check(hit is None, rule, inst + ':' + vname, comp.qname,
                   'every definition of `%s` reaching the status / return value is the result of the convergence test' % vname
                   if hit is None else
@@ -257,7 +266,7 @@ def split_index(t):
 def permuter_names(ctx, m):
     """Names of the methods that reorder the Ritz arrays and the flags coherently (checked by coherent_permutation)."""
     out = set()
-    for name, fn in m.methods.items():
+    for name, fn in m.named():
         if fn.d.get('ctor') or fn.d.get('dtor'):
             continue
         w = ctx.E.of(fn)
@@ -568,13 +577,17 @@ def exit_expressions(ctx, base_tq, rule='exit-status-and-count'):
             lv = leaves(comp, expr)
             loc = [x for x in lv if x[0] == 'local']
             fld = [x for x in lv if x[0] == 'field']
-            if len(loc) != 1 or len(fld) != 1:
+            if len(loc) != 1 or len(fld) > 1 or (u['k'] != 'ReturnStmt' and len(fld) != 1):
                 problems.append('%s depends on %s' % (comp.s(u), sorted(lv)))
                 continue
+            # the count is the number of set entries of an array of length nev: 0 <= count <= nev
             for nev in (1, 2, 5):
                 for cnt in range(0, nev + 1):
                     try:
-                        v = ev(comp, expr, {loc[0]: cnt, fld[0]: nev})
+                        env = {loc[0]: cnt}
+                        if fld:
+                            env[fld[0]] = nev
+                        v = ev(comp, expr, env)
                     except CannotEval as e:
                         raise AnalysisBroken('cannot evaluate %s: %s' % (comp.s(u), e))
                     if u['k'] == 'ReturnStmt':
@@ -587,3 +600,498 @@ def exit_expressions(ctx, base_tq, rule='exit-status-and-count'):
         ctx.check(not problems, rule, inst, comp.qname,
                   'return = min(nev, count), status = Successful iff count >= nev else NotConverging, on all orderings'
                   if not problems else '; '.join(sorted(set(problems))[:4]))
+
+
+# ---------------------------------------------------------------------------------------------------
+# C05-D2  who may write the flags / the status
+# ---------------------------------------------------------------------------------------------------
+SOLVER_TMPLS = ('Spectra::HermEigsBase', 'Spectra::GenEigsBase', 'Spectra::SymEigsSolver', 'Spectra::HermEigsSolver',
+                'Spectra::SymEigsShiftSolver', 'Spectra::GenEigsSolver', 'Spectra::GenEigsRealShiftSolver',
+                'Spectra::GenEigsComplexShiftSolver', 'Spectra::SymGEigsSolver', 'Spectra::SymGEigsShiftSolver')
+
+
+def flag_and_status_writers(ctx, base_tq, rule='flag-writers'):
+    """m_ritz_conv is written only by init (zero fill), the convergence test and the coherent permutation;
+    the status only by constructors and compute()."""
+    for comp in ctx.F.insts(base_tq + '::compute'):
+        m = BaseModel(ctx, comp)
+        refs = set(m.refreshers())
+        perm = permuter_names(ctx, m)
+        inst = short(base_tq)
+        bad = []
+        seen = []
+        for name, fn in m.named():
+            fe = ctx.E.of(fn)
+            wr = [a for a in fe.accesses if a.path == (m.flag,) and a.mode == 'w']
+            if not wr:
+                continue
+            seen.append(name)
+            if name in refs or name in perm:
+                continue
+            if name == 'init':
+                # allowed: resize + zero fill, nothing else
+                kinds = set(fn.nodes[a.node].get('callee') for a in wr)
+                if kinds <= {'resize', 'setZero', 'setConstant', 'fill'} and ('setZero' in kinds or 'setConstant' in kinds or 'fill' in kinds):
+                    continue
+                bad.append('%s writes the flags by %s' % (name, sorted(str(k) for k in kinds)))
+                continue
+            bad.append('%s writes the convergence flags (%s)' % (name, fn.loc(fn.nodes[wr[0].node])))
+        ctx.check(not bad, rule, inst + ':flags', comp.record,
+                  'flags written only by %s' % seen if not bad else '; '.join(bad))
+        bad = []
+        seen = []
+        for name, fn in m.named():
+            fe = ctx.E.of(fn)
+            wr = [a for a in fe.accesses if a.path == (m.info,) and a.mode == 'w']
+            ini = [i for i in fn.inits if i['member'] == m.info]
+            if wr or ini:
+                seen.append(name)
+            if wr and name != 'compute':
+                bad.append('%s assigns the status' % name)
+        ctx.check(not bad, rule, inst + ':status', comp.record,
+                  'status written only by %s' % seen if not bad else '; '.join(bad))
+
+
+# ---------------------------------------------------------------------------------------------------
+# C05-D2  accessor siblings
+# ---------------------------------------------------------------------------------------------------
+def _count_of_flags(t, flag):
+    return t in (('count', ('F', flag)), ('sum', ('cast', ('F', flag))))
+
+
+def accessor_agreement(ctx, base_tq, rule='accessor-agreement'):
+    """eigenvalues() and eigenvectors(nvec) select by the same flag predicate over [0, nev), sizes derive from the flag count."""
+    for comp in ctx.F.insts(base_tq + '::compute'):
+        m = BaseModel(ctx, comp)
+        inst = short(base_tq)
+        nev_field = None
+        # nev = the size the flag array is given in init()
+        ini = m.methods.get('init')
+        if ini is None:
+            raise AnalysisBroken('%s: no init()' % comp.record)
+        for n in ini.walk():
+            if n['k'] == 'CXXMemberCallExpr' and n.get('callee') == 'resize':
+                t = sym(ini, n, inline=False)
+                if t[1] == ('F', m.flag) and len(t) == 3 and t[2][0] == 'F':
+                    nev_field = t[2][1]
+        if nev_field is None:
+            raise AnalysisBroken('%s: init() does not size the flag array by a field' % comp.record)
+        for acc in ('eigenvalues', 'eigenvectors'):
+            fns = [f for f in ctx.F.by_record[comp.record].get(acc, []) if len(f.params) == (0 if acc == 'eigenvalues' else 1)]
+            if not fns:
+                raise AnalysisBroken('%s::%s not analysed' % (comp.record, acc))
+            fn = fns[0]
+            problems = []
+            defs = single_defs(fn)
+            # count local
+            cnt = None
+            for v, init in defs.items():
+                if _count_of_flags(sym(fn, init, inline=False), m.flag):
+                    cnt = fn.locals[v]['name']
+            if cnt is None:
+                problems.append('no local holds the number of set flags')
+            loops = [n for n in fn.walk() if n['k'] == 'ForStmt']
+            if len(loops) != 1:
+                problems.append('%d loops (expected 1)' % len(loops))
+            else:
+                lp = loops[0]
+                init = fn.node(lp.get('init', -1))
+                cond = sym(fn, lp['cond'], inline=False)
+                inc = sym(fn, lp['inc'], inline=False)
+                var = None
+                if init is not None and init['k'] == 'DeclStmt' and len(init['decls']) == 1 and 'init' in init['decls'][0]:
+                    var = fn.locals[init['decls'][0]['var']]['name']
+                    if sym(fn, init['decls'][0]['init'], inline=False) != ('lit', '0'):
+                        problems.append('loop does not start at 0')
+                conj = []
+
+                def flat(t):
+                    if t[0] == '&&':
+                        flat(t[1]); flat(t[2])
+                    else:
+                        conj.append(t)
+                flat(cond)
+                if ('<', ('L', var), ('F', nev_field)) not in conj:
+                    problems.append('loop bound %s is not %s < %s' % (show(cond), var, nev_field))
+                extra = [c for c in conj if c != ('<', ('L', var), ('F', nev_field))]
+                if inc not in (('u++', ('L', var)),):
+                    problems.append('loop step is %s' % show(inc))
+                ifs = [n for n in fn.walk(lp['body']) if n['k'] == 'IfStmt']
+                if len(ifs) != 1 or sym(fn, ifs[0]['cond'], inline=False) != ('[]', ('F', m.flag), ('L', var)):
+                    problems.append('loop body is not guarded by flag[%s]' % var)
+                else:
+                    body = ifs[0]['then']
+                    copies = [(n, sym(fn, n, inline=False)) for n in fn.walk(body)
+                              if n['k'] in ('BinaryOperator', 'CXXOperatorCallExpr') and n.get('op') == '=']
+                    if len(copies) != 1:
+                        problems.append('%d copies under the flag test (expected 1)' % len(copies))
+                    else:
+                        _, t = copies[0]
+                        droot, didx = split_index(t[1])
+                        sroot, sidx = split_index(t[2])
+                        if not (sroot and sroot[0] == 'F' and sidx and sidx[-1] == ('L', var)):
+                            problems.append('copied source %s is not <field> at %s' % (show(t[2]), var))
+                        if not (droot and droot[0] == 'L' and didx and didx[-1][0] == 'L' and didx[-1][1] != var):
+                            problems.append('copy destination %s is not <result> at a running index' % show(t[1]))
+                        else:
+                            j = didx[-1][1]
+                            incs = [x for x in fn.walk(body) if x['k'] == 'UnaryOperator' and x.get('op') == '++' and
+                                    sym(fn, x['c'][0], inline=False) == ('L', j)]
+                            if len(incs) != 1:
+                                problems.append('running index %s is not incremented exactly once per selected entry' % j)
+                            for e in extra:
+                                if not (e[0] == '<' and e[1] == ('L', j)):
+                                    problems.append('unexpected loop condition %s' % show(e))
+            if acc == 'eigenvectors' and cnt is not None:
+                # nvec <- min(nvec, count) before anything is sized by it
+                p0 = fn.locals[fn.params[0]]['name']
+                clamps = [n for n in fn.walk() if n['k'] == 'BinaryOperator' and n.get('op') == '=' and
+                          sym(fn, n['c'][0], inline=False) == ('P', p0)]
+                okc = False
+                for c in clamps:
+                    t = sym(fn, c['c'][1], inline=False)
+                    if t in (('call', 'min', ('L', cnt), ('P', p0)), ('call', 'min', ('P', p0), ('L', cnt))):
+                        okc = True
+                        pos = fn.pos_of(c)
+                        # dominates every other use of the parameter
+                        for x in fn.walk():
+                            if x['k'] == 'DeclRefExpr' and x.get('name') == p0 and x.get('dk') == 'param' and not fn.within(x, c):
+                                px = fn.pos_of(x)
+                                if px is not None and not paths.dominated_by(fn, px, lambda n, c=c: n['id'] == c['id']):
+                                    problems.append('%s used at %s before it is clamped to the converged count' % (p0, fn.loc(x)))
+                                    break
+                if not okc:
+                    problems.append('%s is not clamped to min(%s, count)' % (p0, p0))
+            problems += _returned_object(ctx, m, fn, acc)
+            ctx.check(not problems, rule, '%s::%s' % (inst, acc), fn.qname,
+                      'selects entries i < %s with flag[i] set, in order; sizes from the flag count' % nev_field
+                      if not problems else '; '.join(problems))
+        # eigenvectors() == eigenvectors(nev)
+        fns = [f for f in ctx.F.by_record[comp.record].get('eigenvectors', []) if len(f.params) == 0]
+        for fn in fns:
+            rets = [n for n in fn.walk() if n['k'] == 'ReturnStmt']
+            t = sym(fn, rets[0]['value'], inline=False) if len(rets) == 1 else None
+            ctx.check(t == ('eigenvectors', ('this',), ('F', nev_field)), rule, inst + '::eigenvectors()', fn.qname,
+                      'returns eigenvectors(%s)' % nev_field if t else 'unexpected body')
+
+
+def _returned_object(ctx, m, fn, acc):
+    """eigenvalues(): the filled vector is what is returned.  eigenvectors(nvec): the returned matrix is assigned
+    <basis accessor of the factorization> * <the selected Ritz-vector columns>."""
+    problems = []
+    rets = [n for n in fn.walk() if n['k'] == 'ReturnStmt']
+    rl = set()
+    for r in rets:
+        t = sym(fn, r['value'], inline=False)
+        if t[0] != 'L':
+            problems.append('returns %s, not the result object' % show(t))
+        else:
+            rl.add(t[1])
+    if len(rl) != 1:
+        return problems + ['returns different objects on different paths']
+    res = list(rl)[0]
+    filled = set()
+    for n in fn.walk():
+        if n['k'] in ('BinaryOperator', 'CXXOperatorCallExpr') and n.get('op') == '=':
+            loop = [a for a in fn.ancestors(n) if a['k'] == 'ForStmt']
+            if loop:
+                t = sym(fn, n, inline=False)
+                droot, _ = split_index(t[1])
+                if droot and droot[0] == 'L':
+                    filled.add(droot[1])
+    if acc == 'eigenvalues':
+        if res not in filled:
+            problems.append('the returned vector `%s` is not the one filled under the flag test' % res)
+        return problems
+    prods = []
+    for n in fn.walk():
+        if n['k'] in ('BinaryOperator', 'CXXOperatorCallExpr') and n.get('op') == '=' and not [a for a in fn.ancestors(n) if a['k'] == 'ForStmt']:
+            t = sym(fn, n, inline=False)
+            if t[1] == ('L', res):
+                prods.append(t[2])
+    if len(prods) != 1:
+        return problems + ['%d assignments to the returned matrix (expected 1)' % len(prods)]
+    t = prods[0]
+    fac_fields = [f['name'] for f in m.rec['fields'] if f['type'].startswith('Spectra::Lanczos<') or f['type'].startswith('Spectra::Arnoldi<')]
+    if not (t[0] == '*' and len(t) == 3 and isinstance(t[1], tuple) and len(t[1]) == 2 and t[1][1] == ('F', fac_fields[0] if fac_fields else '?')
+            and t[2][0] == 'L' and t[2][1] in filled):
+        problems.append('returned matrix is %s, not <basis of the factorization> * <selected Ritz vectors>' % show(t))
+    else:
+        # the accessor returns the n-row basis field
+        accs = [f for f in ctx.F.concrete() if f.name == t[1][0] and f.cls in FAC_TMPLS]
+        if not accs:
+            problems.append('factorization accessor %s not analysed' % t[1][0])
+        else:
+            g = accs[0]
+            gr = [x for x in g.walk() if x['k'] == 'ReturnStmt']
+            gt = sym(g, gr[0]['value'], inline=False) if len(gr) == 1 else None
+            if not (gt and gt[0] == 'F'):
+                problems.append('%s() does not return a stored field' % t[1][0])
+            else:
+                # that field is the one whose columns factorize_from fills (the Krylov basis)
+                okb = False
+                for ff in ctx.F.concrete():
+                    if ff.cls in FAC_TMPLS and ff.name == 'factorize_from':
+                        for x in ff.walk():
+                            if x['k'] in ('CXXOperatorCallExpr',) and x.get('op') == '=':
+                                tt = sym(ff, x, inline=False)
+                                if tt[1][0] == 'col' and tt[1][1] == gt:
+                                    okb = True
+                if not okb:
+                    problems.append('%s() returns %s, which is not the basis filled column by column in factorize_from' % (t[1][0], gt[1]))
+    return problems
+
+
+# ---------------------------------------------------------------------------------------------------
+# C05-D3  operator applications are counted
+# ---------------------------------------------------------------------------------------------------
+FAC_TMPLS = ('Spectra::Arnoldi', 'Spectra::Lanczos')
+
+
+def counter_pairing(ctx, rule='op-application-counted'):
+    """Inside the factorization every application of the operator adaptor is followed, in the same basic block
+    and before any other application, by an increment of the by-reference counter parameter."""
+    n_sites = 0
+    for fn in ctx.F.concrete():
+        if fn.cls not in FAC_TMPLS or not fn.cfg:
+            continue
+        ctr = [v for v in fn.params if fn.locals[v]['type'] in ('long &', 'Eigen::Index &')]
+        for b in fn.cfg['blocks']:
+            pending = None
+            for i, n in fn.elem_nodes(b['id']):
+                if n['k'] == 'CXXMemberCallExpr' and n.get('callee') == 'perform_op' and n.get('cls') == 'Spectra::ArnoldiOp':
+                    if pending is not None:
+                        ctx.fail(rule, '%s::%s@%d' % (short(fn.cls), fn.name, pending['l'] - fn.line), fn.qname,
+                                 'operator applied at %s and again before the counter was incremented' % fn.loc(pending))
+                        n_sites += 1
+                    pending = n
+                elif n['k'] == 'UnaryOperator' and n.get('op') == '++' and pending is not None:
+                    t = fn.strip(fn.nodes[n['c'][0]])
+                    if t['k'] == 'DeclRefExpr' and t.get('var') in ctr:
+                        ctx.ok(rule, '%s::%s#%s' % (short(fn.cls), fn.name, _ordinal(fn, pending)), fn.qname,
+                               '%s ; %s' % (fn.s(pending)[:60], fn.s(n)))
+                        n_sites += 1
+                        pending = None
+            if pending is not None:
+                ctx.fail(rule, '%s::%s#%s' % (short(fn.cls), fn.name, _ordinal(fn, pending)), fn.qname,
+                         'operator applied at %s without incrementing the operation counter in the same block' % fn.loc(pending))
+                n_sites += 1
+    return n_sites
+
+
+def _ordinal(fn, node):
+    """1-based ordinal of a perform_op call among the perform_op calls of its function (stable under line shifts)."""
+    calls = [n['id'] for n in fn.walk() if n['k'] == 'CXXMemberCallExpr' and n.get('callee') == 'perform_op']
+    return str(calls.index(node['id']) + 1) if node['id'] in calls else '?'
+
+
+COUNT_EXEMPT = {('Spectra::GenEigsComplexShiftSolver', 'sort_ritzpair'):
+                'post-processing solves at the probe shift: outside the counted iteration by the property\'s own statement'}
+
+
+def operator_callers(ctx, rule='operator-applied-only-by-factorization'):
+    """Solver classes never apply an operator themselves (except the tabulated probe), and the adaptor's
+    perform_op is called from the factorization only."""
+    n = 0
+    for fn in ctx.F.concrete():
+        for c in fn.walk():
+            if c['k'] != 'CXXMemberCallExpr' or c.get('callee') != 'perform_op':
+                continue
+            if fn.cls in SOLVER_TMPLS:
+                ex = COUNT_EXEMPT.get((fn.cls, fn.name))
+                ctx.check(ex is not None, rule, '%s::%s' % (short(fn.cls), fn.name), fn.qname,
+                          ('tabulated exception: ' + ex) if ex else
+                          'solver member applies an operator directly at %s: not counted by num_operations()' % fn.loc(c))
+                n += 1
+            elif c.get('cls') == 'Spectra::ArnoldiOp':
+                ctx.check(fn.cls in FAC_TMPLS, rule, '%s::%s' % (short(fn.cls), fn.name), fn.qname,
+                          'adaptor applied from the factorization' if fn.cls in FAC_TMPLS else
+                          'adaptor applied outside the factorization at %s' % fn.loc(c))
+                n += 1
+    return n
+
+
+def counter_identity(ctx, base_tq, rule='counter-identity'):
+    """num_operations() returns the field that is (a) zeroed by init() before the factorization is initialised and
+    (b) passed as the counter to every counting member of the factorization."""
+    for comp in ctx.F.insts(base_tq + '::compute'):
+        m = BaseModel(ctx, comp)
+        inst = short(base_tq)
+        acc = m.methods.get('num_operations')
+        if acc is None:
+            # implicit instantiation that never uses the accessor (e.g. the SVD wrapper's inner solver): nothing to decide
+            ctx.note('%s: num_operations() is not instantiated; counter-identity skipped for this instantiation' % comp.record)
+            continue
+        rets = [n for n in acc.walk() if n['k'] == 'ReturnStmt']
+        t = sym(acc, rets[0]['value'], inline=False) if len(rets) == 1 else None
+        if not (t and t[0] == 'F'):
+            ctx.fail(rule, inst, comp.record, 'num_operations() does not return a field')
+            continue
+        ctr = t[1]
+        problems = []
+        n_sites = 0
+        for name, fn in m.named():
+            for c in fn.walk():
+                if c['k'] != 'CXXMemberCallExpr' or c.get('cls') not in FAC_TMPLS:
+                    continue
+                pm = c.get('pmut', '')
+                args = fn.call_args(c)
+                for j, a in enumerate(args):
+                    if j < len(pm) and pm[j] == 'R' and a.get('t') == 'long':
+                        n_sites += 1
+                        if sym(fn, a, inline=False) != ('F', ctr):
+                            problems.append('%s passes %s as the operation counter at %s' % (name, fn.s(a), fn.loc(c)))
+        ini = m.methods.get('init')
+        zero = [n for n in ini.walk() if n['k'] == 'BinaryOperator' and n.get('op') == '=' and
+                sym(ini, n, inline=False) == ('=', ('F', ctr), ('lit', '0'))]
+        if not zero:
+            problems.append('init() does not zero %s' % ctr)
+        else:
+            # the zeroing dominates the factorization's init call
+            for c in ini.walk():
+                if c['k'] == 'CXXMemberCallExpr' and c.get('cls') in FAC_TMPLS:
+                    if not paths.dominated_by(ini, ini.pos_of(c), lambda n: n['id'] == zero[0]['id']):
+                        problems.append('%s is not zeroed before the factorization is initialised' % ctr)
+        # nobody else writes the counter field directly
+        for name, fn in m.named():
+            if name in ('init',) or fn.d.get('ctor'):
+                continue
+            for a in ctx.E.of(fn).accesses:
+                if a.path == (ctr,) and a.mode == 'w' and fn.nodes[a.node]['k'] != 'CXXMemberCallExpr':
+                    problems.append('%s writes %s directly at %s' % (name, ctr, fn.loc(fn.nodes[a.node])))
+        if n_sites < 3:
+            raise AnalysisBroken('%s: only %d counter-passing call sites found' % (comp.record, n_sites))
+        ctx.check(not problems, rule, inst, comp.record,
+                  'num_operations() returns %s: zeroed by init(), passed as the counter at %d call sites' % (ctr, n_sites)
+                  if not problems else '; '.join(problems))
+
+
+# ---------------------------------------------------------------------------------------------------
+# C05-D4  at most maxit restarts
+# ---------------------------------------------------------------------------------------------------
+def restart_bound(ctx, base_tq, rule='restarts-bounded-by-maxit'):
+    for comp in ctx.F.insts(base_tq + '::compute'):
+        inst = short(base_tq) + '::compute'
+        problems = []
+        calls = [n for n in comp.walk() if n['k'] == 'CXXMemberCallExpr' and n.get('callee') == 'restart']
+        if not calls:
+            raise AnalysisBroken('%s: compute() does not call restart()' % comp.record)
+        for c in calls:
+            loop = None
+            for a in comp.ancestors(c):
+                if a['k'] in ('ForStmt', 'WhileStmt', 'DoStmt'):
+                    loop = a
+                    break
+            if loop is None or loop['k'] != 'ForStmt':
+                problems.append('restart() at %s is not inside a counted loop' % comp.loc(c))
+                continue
+            if not comp.within(c, loop['body']):
+                problems.append('restart() is not in the loop body')
+            rg = loop_range(comp, loop)
+            if rg is None:
+                problems.append('loop around restart() is not `for (i = lo; i < hi; i++)`')
+                continue
+            var, lo, hi = rg
+            if lo != ('lit', '0') or hi[0] != 'P':
+                problems.append('loop runs from %s to %s, not from 0 to the maxit parameter' % (show(lo), show(hi)))
+            # neither the induction variable nor the bound is written in the body
+            for x in comp.walk(loop['body']):
+                if x['k'] in ('BinaryOperator', 'CompoundAssignOperator', 'UnaryOperator') and \
+                        (x.get('op') in ('=', '+=', '-=', '*=', '/=', '++', '--')):
+                    l = comp.strip(comp.nodes[x['c'][0]])
+                    if l['k'] == 'DeclRefExpr' and (l.get('name') == var or ('P', l.get('name')) == hi):
+                        problems.append('%s is modified inside the loop at %s' % (l.get('name'), comp.loc(x)))
+            # at most one restart per iteration: no path from this call to a restart() call avoids the loop step
+            inc = comp.node(loop.get('inc', -1))
+            rid = set(x['id'] for x in calls)
+            hit = paths.search(comp, [comp.pos_of(c)], stop=lambda n, inc=inc: inc is not None and n['id'] == inc['id'],
+                               target=lambda n: n['id'] in rid)
+            if hit is not None:
+                problems.append('a second restart() can run in the same iteration: ' + hit[-1])
+            # nested loops around the call inside this loop
+            for a in comp.ancestors(c):
+                if a['id'] == loop['id']:
+                    break
+                if a['k'] in ('ForStmt', 'WhileStmt', 'DoStmt'):
+                    problems.append('restart() is inside a nested loop')
+        # restart() itself is not recursive and is called from compute() only
+        m = BaseModel(ctx, comp)
+        for name, fn in m.named():
+            if name == 'compute':
+                continue
+            for x in fn.walk():
+                if x['k'] == 'CXXMemberCallExpr' and x.get('callee') == 'restart' and x.get('cls') == base_tq:
+                    problems.append('%s also calls restart()' % name)
+        ctx.check(not problems, rule, inst, comp.qname,
+                  'restart() called once per iteration of `for (i = 0; i < maxit; i++)`, i and maxit not modified'
+                  if not problems else '; '.join(problems))
+
+
+# ---------------------------------------------------------------------------------------------------
+# C05-D5  state before compute()
+# ---------------------------------------------------------------------------------------------------
+def initial_state(ctx, base_tq, rule='initial-state'):
+    for comp in ctx.F.insts(base_tq + '::compute'):
+        m = BaseModel(ctx, comp)
+        inst = short(base_tq)
+        ctors = [f for f in ctx.F.methods(comp.record) if f.d.get('ctor')]
+        if not ctors:
+            raise AnalysisBroken('%s: no constructor analysed' % comp.record)
+        for k, c in enumerate(sorted(ctors, key=lambda f: f.line)):
+            problems = []
+            ini = [i for i in c.inits if i['member'] == m.info]
+            if len(ini) != 1 or sym(c, ini[0]['expr'], inline=False) != ('enum', 'NotComputed'):
+                problems.append('status is not initialised to NotComputed')
+            for a in ctx.E.of(c).accesses:
+                if a.path in ((m.flag,), (m.info,)) and a.mode == 'w':
+                    problems.append('constructor body writes %s' % a.path[0])
+            if any(i['member'] == m.flag and i.get('written') for i in c.inits):
+                problems.append('constructor sizes the flag array (accessors would not be empty before compute())')
+            ctx.check(not problems, rule, '%s::ctor#%d' % (inst, k + 1), c.qname,
+                      'status starts as NotComputed, flag array starts empty' if not problems else '; '.join(problems))
+
+
+# ---------------------------------------------------------------------------------------------------
+# C04-D1 / C05  the rule arguments reach their consumers unchanged
+# ---------------------------------------------------------------------------------------------------
+def rule_argument_flow(ctx, base_tq, rule='rule-argument-flow'):
+    """compute(selection, .., sorting): every retrieve/restart receives `selection`, the final sort receives `sorting`."""
+    want = {'retrieve_ritzpair': 0, 'restart': 0, 'sort_ritzpair': 3}
+    for comp in ctx.F.insts(base_tq + '::compute'):
+        inst = short(base_tq) + '::compute'
+        pnames = [comp.locals[v]['name'] for v in comp.params]
+        ptypes = [comp.locals[v]['type'] for v in comp.params]
+        rule_params = [i for i, t in enumerate(ptypes) if t == 'Spectra::SortRule']
+        problems = []
+        if len(rule_params) != 2:
+            raise AnalysisBroken('%s: compute() has %d SortRule parameters' % (comp.record, len(rule_params)))
+        sel, srt = pnames[rule_params[0]], pnames[rule_params[1]]
+        n = 0
+        for c in comp.walk():
+            if c['k'] == 'CXXMemberCallExpr' and c.get('callee') in want:
+                args = [a for a in comp.call_args(c) if a.get('t') == 'Spectra::SortRule']
+                exp = srt if c['callee'] == 'sort_ritzpair' else sel
+                n += 1
+                if len(args) != 1 or sym(comp, args[0], inline=False) != ('P', exp):
+                    problems.append('%s receives %s instead of the caller\'s `%s`' %
+                                    (c['callee'], comp.s(args[0]) if args else '?', exp))
+        for x in comp.walk():
+            if x['k'] in ('BinaryOperator', 'CompoundAssignOperator') and x.get('op') == '=':
+                l = comp.strip(comp.nodes[x['c'][0]])
+                if l['k'] == 'DeclRefExpr' and l.get('name') in (sel, srt):
+                    problems.append('%s is overwritten at %s' % (l['name'], comp.loc(x)))
+        if n < 3:
+            raise AnalysisBroken('%s: only %d rule-consuming calls in compute()' % (comp.record, n))
+        # restart forwards its rule to retrieve_ritzpair
+        m = BaseModel(ctx, comp)
+        rs = m.methods.get('restart')
+        if rs is not None:
+            rp = [rs.locals[v]['name'] for v in rs.params if rs.locals[v]['type'] == 'Spectra::SortRule']
+            for c in rs.walk():
+                if c['k'] == 'CXXMemberCallExpr' and c.get('callee') == 'retrieve_ritzpair':
+                    a = [a for a in rs.call_args(c)]
+                    if not rp or sym(rs, a[0], inline=False) != ('P', rp[0]):
+                        problems.append('restart() hands %s to retrieve_ritzpair' % rs.s(a[0]))
+        ctx.check(not problems, rule, inst, comp.qname,
+                  '`%s` reaches every retrieve/restart, `%s` reaches the final sort (%d call sites)' % (sel, srt, n)
+                  if not problems else '; '.join(problems))
